@@ -1,4 +1,5 @@
 import Litep2pVerif.Proofs.Kad.Store
+import Litep2pVerif.Proofs.Kad.StoreRefine
 import Litep2pVerif.Generated.Consts
 /-!
 # C17 — The DHT record and provider store respects its bounds and freshness rules
@@ -173,6 +174,74 @@ theorem providers_closest (m : Nat) (anns : List Prov) :
 example : [⟨1, 30, [], 5⟩, ⟨2, 10, [], 5⟩, ⟨3, 20, [], 5⟩, ⟨1, 30, [9], 6⟩, ⟨4, 5, [], 5⟩].foldl
     (fun l p => (putProvList 2 l p).1) ([] : List Prov) = [⟨4, 5, [], 5⟩, ⟨2, 10, [], 5⟩] := by decide
 
+
+/-- **The record store is a finite map with an admission rule (refinement).** With `lookupRec k s.records`
+as the abstract content of key `k`: a `put` sets exactly the record's own key, and only when the admission
+rule `putAccepts` (size below the bound; an entry with an expiry is not replaced by one expiring earlier; a
+new key only below the record bound) holds — otherwise the store is unchanged; a `get` returns the content
+of its key unless expired, removes at most that expired entry and touches no other key; provider operations
+never touch a record. Hence what any later `get` returns after any history is determined by the admission
+and expiry rules alone. -/
+theorem record_store_refines_map (cfg : Cfg) (s : Store) (h : Inv cfg s) :
+    (∀ r k, lookupRec k (put cfg s r).records =
+        if k = r.key ∧ putAccepts cfg s r = true then some r else lookupRec k s.records) ∧
+    (∀ r, putAccepts cfg s r = false → put cfg s r = s) ∧
+    (∀ k now, (getRecord s k now).2 = (lookupRec k s.records).filter (fun r => !r.expiredAt now)) ∧
+    (∀ k now k', lookupRec k' (getRecord s k now).1.records =
+        if k' = k then (lookupRec k s.records).filter (fun r => !r.expiredAt now)
+        else lookupRec k' s.records) ∧
+    (∀ op, (match op with | .put _ => False | .get _ _ => False | _ => True) →
+        (apply cfg s op).records = s.records) := by
+  refine ⟨fun r k => put_lookup cfg s r k, ?_, fun k now => get_result s k now,
+    fun k now k' => get_lookup h k now k', fun op hop => provider_ops_keep_records cfg s op hop⟩
+  intro r hrej
+  obtain ⟨rk, rv, re⟩ := r
+  unfold putAccepts at hrej
+  unfold put
+  by_cases hsz : cfg.maxRecordSize ≤ rv.length
+  · simp [hsz]
+  · have hlt : rv.length < cfg.maxRecordSize := by omega
+    simp only [hsz, if_false]
+    simp only [hlt, decide_true, Bool.true_and] at hrej
+    cases hl : lookupRec rk s.records with
+    | none =>
+      simp only [hl] at hrej
+      have : cfg.maxRecords ≤ s.records.length := by
+        have := of_decide_eq_false hrej; omega
+      simp [this]
+    | some old =>
+      obtain ⟨ok, ov, oe⟩ := old
+      simp only [hl] at hrej
+      cases oe with
+      | none => simp at hrej
+      | some stored =>
+        cases re with
+        | none => simp at hrej
+        | some new =>
+          have : new < stored := by
+            have := of_decide_eq_false hrej; omega
+          simp [this]
+
+/-- A record the store admitted is what the next `get` of its key returns (until it expires). -/
+theorem put_then_get (cfg : Cfg) (s : Store) (r : Rec) (now : Nat)
+    (ha : putAccepts cfg s r = true) (hne : r.expiredAt now = false) :
+    (getRecord (put cfg s r) r.key now).2 = some r := by
+  rw [get_result, put_lookup]
+  simp [ha, Option.filter, hne]
+
+/-- Non-vacuity: admission and rejection both occur, and an invariant-satisfying store exists. -/
+example :
+    let cfg : Cfg := ⟨2, 4, 1, 2, 1, 10⟩
+    let s : Store := { records := [⟨1, [9], some 50⟩] }
+    putAccepts cfg s ⟨1, [8], some 60⟩ = true ∧ putAccepts cfg s ⟨1, [8], some 40⟩ = false ∧
+    putAccepts cfg s ⟨2, [8], none⟩ = true ∧ putAccepts cfg s ⟨2, [1, 2, 3, 4], none⟩ = false ∧
+    (getRecord (put cfg s ⟨2, [8], none⟩) 2 1000).2 = some ⟨2, [8], none⟩ ∧
+    (getRecord (put cfg s ⟨2, [8], none⟩) 1 50).2 = none := by
+  decide
+
+example : Inv ⟨2, 4, 1, 2, 1, 10⟩ { records := [⟨1, [9], some 50⟩] } := by
+  constructor <;> simp
+
 end Litep2pVerif.Props.C17
 
 open Litep2pVerif.Props.C17 in
@@ -191,3 +260,7 @@ open Litep2pVerif.Props.C17 in
 #print axioms providers_closest_step
 open Litep2pVerif.Props.C17 in
 #print axioms providers_closest
+open Litep2pVerif.Props.C17 in
+#print axioms record_store_refines_map
+open Litep2pVerif.Props.C17 in
+#print axioms put_then_get
